@@ -302,8 +302,8 @@ impl<'a> Exec<'a> {
                     self.labels.insert("repr_change");
                 }
             }
-            Op::Offload { level } => {
-                let freed = self.sut.as_mut().expect("open").offload(usize::MAX, *level as usize).await;
+            Op::Offload { level, need } => {
+                let freed = self.sut.as_mut().expect("open").offload(offload_needed(*need), *level as usize).await;
                 if freed > 0 {
                     self.labels.insert("offloaded");
                     self.labels.insert("repr_change");
